@@ -33,6 +33,27 @@ BIG = 1000        # tag layout: value = 1 + tag + (2*element + component) * BIG
 LIM = 30000       # fixed-point components beyond this are recorded as LIM + 1 (the spec's InRange rejects them)
 MAXRS = 16384
 RMIN = {"VProfile": 2.5, "VProfileSmall": 0.75}   # registered in harness/conf/grids.yaml
+# the configurations a process may be in: directory pushed with autoconf, radial minima in units of 1/4 (= ConfMin of the spec)
+CONF_DIRS = {1: "conf", 2: "conf_c17b", 3: "conf_c17c"}
+CONF_MIN = {1: {"VProfile": 10, "VProfileSmall": 3}, 2: {"VProfile": 3, "VProfileSmall": 10}, 3: {"VProfile": 5, "VProfileSmall": 6}}
+
+
+def push_conf(c):
+    """Reconfigure: push configuration c (another grids.yaml with other radial minima for the same profile classes)."""
+    from autoconf import conf
+
+    conf.instance.push(new_path=os.path.join(os.path.dirname(os.path.dirname(os.path.abspath(__file__))), CONF_DIRS[c]))
+
+
+def conf_seen():
+    """alpha: the radial minima the library's configuration reports now, in units of 1/4 (OFF when not on that lattice)."""
+    from autoconf import conf
+
+    out = []
+    for name in ("VProfile", "VProfileSmall"):
+        v = float(conf.instance["grids"]["radial_minimum"]["radial_minimum"][name]) * 4.0
+        out.append(int(v) if float(v).is_integer() else exact.OFF)
+    return out
 # lengths far below any lattice unit: the coordinate EPS[e-1] * (dy, dx) is a hair away from the profile centre (a rounding
 # residue, an origin offset of 1e-13, ...).  All are large enough for y*y + x*x and r_min / radius to stay normal numbers.
 EPS = (1.0e-13, 1.0e-15, 2.0 ** -60, 1.0e-150, 4.0e-13, 1.0e-9, 0.1 + 0.2 - 0.3)
@@ -61,6 +82,10 @@ MC_CFG = """CONSTANTS
   AngleQs <- MCAngleQs
   ClsShapes <- MCClsShapes
   ClsLens <- MCClsLens
+  RecShapes <- MCNone
+  RecLens <- MCNone
+  RecGeoms <- MCNone
+  Confs <- MCNone
   Families <- MCFamilies
 SPECIFICATION Spec
 INVARIANT GridAsBuilt
@@ -75,6 +100,7 @@ INVARIANT PostconditionIsTight
 INVARIANT TinyJudgedByDirection
 INVARIANT LineAnyDirection
 INVARIANT QuarterTurnsPinned
+INVARIANT ProjectedCountFitsExtent
 INVARIANT Line1DAnyDirection
 """
 
@@ -101,12 +127,20 @@ MC_H_CFG = """CONSTANTS
   AngleQs <- MCNone
   ClsShapes <- MCNone
   ClsLens <- MCNone
+  RecShapes <- MCRecShapes
+  RecLens <- MCRecLens
+  RecGeoms <- MCRecGeoms
+  Confs <- MCConfs
   Families <- MCNone
 SPECIFICATION SpecH
 INVARIANT GridAsBuilt
 INVARIANT HistorySeesBuiltGrid
 INVARIANT HistoryShape
 INVARIANT TermsDenoteCoordinates
+INVARIANT ConfigurationInForce
+INVARIANT CallsUseCurrentConfiguration
+INVARIANT ConfigurationsDiffer
+PROPERTY ConfigurationOnlyPushed
 PROPERTY GridNeverWritten
 """
 
@@ -133,6 +167,10 @@ TRACE_CFG = """CONSTANTS
   AngleQs = {}
   ClsShapes = {}
   ClsLens = {}
+  RecShapes = {}
+  RecLens = {}
+  RecGeoms = {}
+  Confs = {}
   Families = {}
 SPECIFICATION TraceSpec
 POSTCONDITION TraceAccepted
@@ -403,7 +441,10 @@ def complete(inst, seed):
         inst.setdefault("prof", "VProfile" if inst["par"][3] == 10 * inst["m"] else "VProfileSmall")
         inst.setdefault("tiny", [])
     else:
-        inst.setdefault("tau", float(TAUS[int(rng.integers(0, len(TAUS)))]))
+        # enumerated project_grid instances stay on a power-of-two lattice (the count of projected points is exact there);
+        # decimal pixel scales are the business of the random part, which sets tau itself
+        pool = DYADIC_TAUS if (api == "project" and gk == "g2d") else TAUS
+        inst.setdefault("tau", float(pool[int(rng.integers(0, len(pool)))]))
         inst.setdefault("prof", "VProfile")
     s = inst["par"][0] if inst["par"][0] > 0 else 2 * int(rng.integers(1, 4))
     if inst.get("tiny"):
@@ -759,10 +800,14 @@ def record_for(inst, shared=None):
         far = max([1.0] + [float(np.max(np.abs(p - c))) / tau for p in recv if np.all(np.isfinite(p))])
         S = min(4096, _pow2_floor(MAXRS / (2.0 * far)))
         aq, D = line_direction((angle + 90.0) if angle is not None else 0.0)
-        rec.update({"S": S, "s": inst["sx"], "c": [inst["cy"], inst["cx"]], "q": _fix(recv, S / tau), "aq": aq, "D": D})
+        rec.update({"S": S, "s": inst["sx"], "c": [inst["cy"], inst["cx"]], "q": _fix(recv, S / tau), "aq": aq, "D": D,
+                    "oy": inst["oy"], "ox": inst["ox"], "dyadic": bool(float(np.log2(tau)).is_integer())})
     if api in ("reloc",) + STACKS:
-        R = exact.to_int_exact(RMIN[inst["prof"]], scale=tau, what="radial minimum")
-        S = (1024 if inst["prof"] == "VProfile" else 4096) // inst["m"]
+        confs = list(shared["confs"]) if shared else []
+        R = CONF_MIN[confs[-1] if confs else 1][inst["prof"]] * inst["m"]     # the minimum configured NOW
+        rmax = max(CONF_MIN[c][inst["prof"]] for c in [1] + confs) * inst["m"]
+        S = min(4096, _pow2_floor(MAXRS / rmax)) if confs else (1024 if inst["prof"] == "VProfile" else 4096) // inst["m"]
+        rec.update({"confs": confs, "prof": inst["prof"], "m": inst["m"]})
         # a tiny coordinate is described by its integer direction (after the profile's quarter turns), everything else by
         # its exact lattice position
         lat = np.array(expected, dtype=float)
@@ -835,7 +880,7 @@ def complete_history(H, seed):
     for c in H["calls"]:
         c = {"api": c} if isinstance(c, str) else dict(c)
         api = c["api"]
-        if api == "derive":
+        if api in ("derive", "reconfigure"):
             c["op"] = [int(x) for x in c["op"]]
             calls.append(c)
             continue
@@ -894,9 +939,31 @@ def history_records(H, hid=1):
     # lattice, never read back from the object, so that an object corrupted by an earlier call cannot excuse a later one
     built = np.array(cur, dtype=float) * tau
     ops = []
+    confs = []
     u, w = list(H["u"]), H["w"]
     recs = []
+    try:
+        _history_steps(H, hid, base, gk, tau, grid, built, cur, base_units, ops, confs, u, w, recs)
+    finally:
+        if confs:
+            push_conf(1)      # the process goes on with the configuration it started with
+    return recs
+
+
+def _history_steps(H, hid, base, gk, tau, grid, built, cur, base_units, ops, confs, u, w, recs):
     for step, c in enumerate(H["calls"], start=1):
+        if c["api"] == "reconfigure":
+            rec = {"p": "C17", "api": "reconfigure", "gk": gk, "cls": H.get("cls", "base"), "rk": "values", "lst": False, "h": H["h"],
+                   "w": w, "u": list(u), "raised": False, "hid": hid, "step": step, "conf": int(c["op"][0]), "seen": [],
+                   "inst": dict(base, **c, history=H, step=step)}
+            try:
+                push_conf(rec["conf"])
+                confs.append(rec["conf"])
+                rec["seen"] = conf_seen()
+            except Exception as e:  # noqa
+                rec["raised"], rec["exc"] = True, _exc(e)
+            recs.append(rec)
+            continue
         if c["api"] == "derive":
             op = c["op"]
             rec = {"p": "C17", "api": "derive", "gk": gk, "cls": H.get("cls", "base"), "rk": "values", "lst": False, "h": H["h"], "raised": False,
@@ -923,10 +990,10 @@ def history_records(H, hid=1):
             recs.append(rec)
             continue
         inst = dict(base, **c, w=w, u=list(u))
-        rec = record_for(inst, shared={"grid": grid, "built": built, "hid": hid, "step": step, "ops": ops, "base": base_units})
+        rec = record_for(inst, shared={"grid": grid, "built": built, "hid": hid, "step": step, "ops": ops, "base": base_units,
+                                       "confs": confs})
         rec["inst"] = dict(inst, history=H, step=step)
         recs.append(rec)
-    return recs
 
 
 def _many_h(items):
@@ -970,6 +1037,7 @@ def bounds(quick):
                 "hist_shapes": [(1, 2), (2, 2), (1, 3)], "hist_lens": [2, 3], "hist_geoms": [(4, 1, -2, 3), (8, 3, -4, 10)], "hist_len": 2,
                 "der_shapes": [(1, 3)], "der_lens": [3], "der_geoms": [(4, 1, -2, 3)],
                 "der_ops": [o for o in DER_OPS if o != (2, 2, 0, 0)],
+                "rec_shapes": [(1, 3)], "rec_lens": [3], "rec_geoms": [(4, 1, -2, 3), (8, 3, -4, 10)], "confs": [1, 2, 3],
                 "proj_shapes": [(1, 1), (1, 2), (2, 2), (1, 3)], "angle_qs": [-2, -1, 0, 1, 2, 3, 5, 98, 99],
                 "cls_shapes": [(1, 2), (2, 2)], "cls_lens": [2, 3]}
     return {"shapes": all33 + [(2, 4), (4, 2), (1, 5), (5, 1)], "mid_shapes": all33, "lens": [1, 2, 3, 4, 5, 6],
@@ -981,6 +1049,8 @@ def bounds(quick):
             "hist_geoms": [(4, 1, -2, 3), (8, 3, -4, 10), (6, 1, 2, 10)], "hist_len": 3,
             "der_shapes": [(1, 3)], "der_lens": [2, 3], "der_geoms": [(8, 3, -4, 10)],
             "der_ops": list(DER_OPS) + [(1, -3, 0, 0), (3, 1, -4, 2)],
+            "rec_shapes": [(1, 2), (1, 3), (2, 2)], "rec_lens": [2, 3, 4], "rec_geoms": [(4, 1, -2, 3), (8, 3, -4, 10), (6, 1, 2, 10)],
+            "confs": [1, 2, 3],
             "proj_shapes": [s for s in all33 if s != (3, 3)], "angle_qs": [-4, -3, -2, -1, 0, 1, 2, 3, 4, 5, 6, 98, 99],
             "cls_shapes": [(1, 2), (2, 1), (2, 2), (1, 3), (2, 3)], "cls_lens": [1, 2, 3, 4]}
 
@@ -1086,6 +1156,15 @@ def expected_histories(b):
         for npix in range(1, n + 1):
             lv, sts = fam("g1d", npix, math.comb(n, npix))
             leaves, st = leaves + lv, st + sts
+    # with a Reconfigure step: call, reconfigure (to one of the other configurations), relocating call, then any calls
+    C = len(b["confs"]) - 1
+    def rfam(gk, count):
+        lv = F(gk) * C * F(gk) * A(gk) ** (L - 2)
+        sts = 1 + F(gk) + F(gk) * C + F(gk) * C * F(gk) * sum(A(gk) ** l for l in range(0, L - 1))
+        return count * lv, count * sts
+    for gk, count in (("g2d", len(b["rec_geoms"]) * nm(b["rec_shapes"])), ("irr", len(b["rec_lens"]) * len({g[3] for g in b["rec_geoms"]}))):
+        lv, sts = rfam(gk, count)
+        leaves, st = leaves + lv, st + sts
     return leaves, st
 
 
@@ -1100,6 +1179,10 @@ def enumerate_histories(ctx, b):
         f"MCDerLens == {_tla_set(str(n) for n in b['der_lens'])}",
         f"MCDerGeoms == {_tla_set(_tup(g) for g in b['der_geoms'])}",
         f"MCDerOps == {_tla_set(_tup(o) for o in b['der_ops'])}",
+        f"MCRecShapes == {_tla_set(_tup(s) for s in b['rec_shapes'])}",
+        f"MCRecLens == {_tla_set(str(n) for n in b['rec_lens'])}",
+        f"MCRecGeoms == {_tla_set(_tup(g) for g in b['rec_geoms'])}",
+        f"MCConfs == {_tla_set(str(c) for c in b['confs'])}",
         "MCNone == {}",
     ])
     res = ctx.tlc("Decorators", MC_H_CFG, defs=defs, tag="MC_DecoratorsH", timeout=3000, coverage=True, workers=4)
@@ -1164,6 +1247,21 @@ def random_histories(rng, count, max_side=6):
                     continue
                 calls.insert(pos, {"api": "derive", "op": op})
             H["calls"] = calls
+        # the configuration changes on the way: other radial minima for the same profile class, once or twice
+        if gk != "g1d" and rng.random() < 0.5:
+            calls = list(H["calls"])
+            cur_conf = 1
+            for _ in range(int(rng.integers(1, 3))):
+                pos = int(rng.integers(1, len(calls)))
+                # (keep the bookkeeping simple: configurations in list order must differ from their predecessor)
+                before = [c["op"][0] for c in calls[:pos] if isinstance(c, dict) and c["api"] == "reconfigure"]
+                after = [c["op"][0] for c in calls[pos:] if isinstance(c, dict) and c["api"] == "reconfigure"]
+                prev = before[-1] if before else 1
+                choices = [c for c in (1, 2, 3) if c != prev and (not after or c != after[0])]
+                calls.insert(pos, {"api": "reconfigure", "op": [int(rng.choice(choices)), 0, 0, 0]})
+            # a relocating call at the end, so that the last configuration is used
+            calls.append(str(rng.choice(["reloc", "stack_array"] if gk != "nd" else ["reloc"])))
+            H["calls"] = calls
         cs = CLASSES_OF[gk]
         H["cls"] = cs[int(rng.integers(0, len(cs)))] if rng.random() < 0.5 else "base"
         out.append(H)
@@ -1208,15 +1306,27 @@ def random_instances(rng, count, max_side=7):
         elif kind == 3:
             gk = ["g2d", "irr", "g1d"][int(rng.integers(0, 3))]
             rk = "values"
+            extra = {}
             if gk == "g2d":
-                h, w, u = _rand_mask(rng, max_side)
-                par = [2 * int(rng.integers(1, 5)), int(rng.integers(-9, 10)), int(rng.integers(-9, 10)), 0]
+                # decimal pixel scales (0.1, 0.2, 0.05, 0.3, ...: not exact in binary) on frames up to 15 x 15, centres on and off
+                # the grid's own centre; the count of projected points is judged exactly
+                tau, sc = [(0.05, 2), (0.05, 4), (0.025, 2), (0.05, 6), (0.1, 2), (0.1, 4), (1.0 / 3.0, 2), (0.35, 2), (0.25, 2)][int(rng.integers(0, 9))]
+                h, w = int(rng.integers(1, 16)), int(rng.integers(1, 16))
+                m = rng.random((h, w)) < rng.choice([0.5, 1.0, 1.0])
+                if not m.any():
+                    m[:, :] = True
+                u = [int(x) for x in np.flatnonzero(m.ravel())]
+                oy, ox = (0, 0) if rng.random() < 0.5 else (int(rng.integers(-6, 7)), int(rng.integers(-6, 7)))
+                on_centre = rng.random() < 0.5
+                cy, cx = (oy, ox) if on_centre else (oy + int(rng.integers(-2 * sc, 2 * sc + 1)), ox + int(rng.integers(-2 * sc, 2 * sc + 1)))
+                par = [sc, cy, cx, 0]
+                extra = {"tau": tau, "oy": oy, "ox": ox, "cy": cy, "cx": cx}
             else:
                 h, w, par = 1, int(rng.integers(2, 13)), [0, 0, 0, 0]
                 u = list(range(w)) if gk == "irr" else sorted(int(x) for x in rng.choice(w, size=int(rng.integers(1, w + 1)), replace=False))
                 rk = ["values", "pairs"][int(rng.integers(0, 2))] if gk == "irr" else "values"
-            out.append({"api": "project", "gk": gk, "rk": rk, "lst": False, "h": h, "w": w, "u": u, "par": par, "depth": 0, "flag": False,
-                        "angle": _angle_pool(rng)})
+            out.append(dict({"api": "project", "gk": gk, "rk": rk, "lst": False, "h": h, "w": w, "u": u, "par": par, "depth": 0, "flag": False,
+                             "angle": _angle_pool(rng)}, **extra))
         elif kind == 4:
             gk = ["g2d", "irr", "nd"][int(rng.integers(0, 3))]
             if gk == "g2d":
@@ -1353,6 +1463,10 @@ def run(ctx):
                 raise KeyError(name)
     except KeyError as e:
         raise core.MachineryError(f"harness/conf lacks a config entry the decorators need: {e}")
+    for c in (2, 3, 1):      # the configuration directories hold what the spec's ConfMin says (1 last: it stays in force)
+        push_conf(c)
+        if conf_seen() != [CONF_MIN[c]["VProfile"], CONF_MIN[c]["VProfileSmall"]]:
+            raise core.MachineryError(f"harness/{CONF_DIRS[c]}/grids.yaml does not hold the radial minima of configuration {c}: {conf_seen()}")
     quick = ctx.quick
     b = bounds(quick)
     nrand = 300 if quick else 6000
@@ -1376,6 +1490,10 @@ def run(ctx):
                   "grid_classes": {"per_kind": {k: list(v) for k, v in CLASSES_OF.items()}, "uniform": "aa.Grid2DIrregularUniform",
                                    "sub": "class MyGrid(aa.Grid2D / aa.Grid2DIrregular / aa.Grid1D): pass", "2d_frames": b["cls_shapes"],
                                    "1d_and_irregular_lengths": b["cls_lens"], "decorators": "all, plus random instances and histories"},
+                  "histories_with_a_reconfigure_step(call, reconfigure, relocating call...)": {
+                      "2d_frames": b["rec_shapes"], "irregular_lengths": b["rec_lens"], "geometries": b["rec_geoms"],
+                      "configurations(radial minima of VProfile / VProfileSmall)": {str(c): [CONF_MIN[c]["VProfile"] / 4, CONF_MIN[c]["VProfileSmall"] / 4] for c in b["confs"]}},
+                  "random_project_2d": "pixel scales 0.1, 0.2, 0.05, 0.3, 0.4, 2/3, 0.7, 0.5 on frames up to 15x15, count of projected points judged exactly",
                   "random_histories": 40 if quick else 600,
                   "random_instances": nrand, "random_max_side": 7 if quick else 9}
     insts = enumerate_instances(ctx, b)
